@@ -383,7 +383,15 @@ func runC16Containment(w *World, n *Node) {
 		g := defaultGenCfg(1)
 		g.keys = []string{"by1", "by2"}
 		g.noFlush = true
-		return g.program(r, 25)
+		p := g.program(r, 25)
+		for i := range p {
+			// the bystander only looks at its own collections: what the fuzzed
+			// connections manage to create elsewhere is not modelled
+			if strings.EqualFold(p[i].Args[0], "KEYS") {
+				p[i].Args[1] = "by*"
+			}
+		}
+		return p
 	})
 	b := w.addActor(n, "127.0.0.1:50001", by)
 	b.onReply = func(op *Op) { hc.onReply(op, b.end.c.name) }
